@@ -109,7 +109,9 @@ class Run:
         with open(os.path.join(d, name), "w") as f:
             f.write(cfgtext)
         meta = os.path.join(self.scratch, "meta%d" % len(self.tlc_runs))
-        cmd = ["java", "-Xss64m", "-Xmx" + xmx, "-XX:+UseParallelGC", "-cp", JAR, "tlc2.TLC",
+        jtmp = os.path.join(self.scratch, "jtmp")      # TLC unpacks its standard modules into java.io.tmpdir: keep that inside the scratch
+        os.makedirs(jtmp, exist_ok=True)
+        cmd = ["java", "-Xss64m", "-Xmx" + xmx, "-XX:+UseParallelGC", "-Djava.io.tmpdir=" + jtmp, "-cp", JAR, "tlc2.TLC",
                "-metadir", meta, "-config", name, "-workers", str(workers or CORES), "-seed", str(self.seed)]
         if simulate:
             cmd += ["-simulate", simulate]
